@@ -130,6 +130,7 @@ func (p *Parser) Reset() {
 	p.currentToken = token.Token{}
 	p.depth = 0
 	p.ctx = nil
+	p.ctxErr = nil
 	p.positions = nil
 	p.strict = false
 	p.dialect = ""
@@ -234,6 +235,7 @@ type Parser struct {
 	currentToken token.Token
 	depth        int             // Current recursion depth
 	ctx          context.Context // Optional context for cancellation support
+	ctxErr       error           // set once advance() has seen the context done (see advance)
 	positions    []TokenPosition // Position mapping for error reporting
 	strict       bool            // Strict mode rejects empty statements
 	dialect      string          // SQL dialect for dialect-aware parsing (default: "postgresql")
@@ -546,7 +548,8 @@ func (p *Parser) ParseContext(ctx context.Context, tokens []token.Token) (*ast.A
 
 	// Store context for use during parsing
 	p.ctx = ctx
-	defer func() { p.ctx = nil }() // Clear context when done
+	p.ctxErr = nil
+	defer func() { p.ctx, p.ctxErr = nil, nil }() // Clear context when done
 
 	p.tokens = tokens
 	p.positions = nil // see Parse
@@ -586,6 +589,12 @@ func (p *Parser) ParseContext(ctx context.Context, tokens []token.Token) (*ast.A
 		}
 
 		stmt, err := p.parseStatement()
+		if p.ctxErr != nil {
+			// the context turned done inside the statement (noticed by
+			// advance): whatever the truncated parse produced is discarded
+			ast.ReleaseAST(result)
+			return nil, fmt.Errorf("parsing cancelled: %w", p.ctxErr)
+		}
 		if err != nil {
 			// Clean up the AST on error
 			ast.ReleaseAST(result)
@@ -597,6 +606,10 @@ func (p *Parser) ParseContext(ctx context.Context, tokens []token.Token) (*ast.A
 		if p.isType(models.TokenTypeSemicolon) {
 			p.advance()
 		}
+	}
+	if p.ctxErr != nil {
+		ast.ReleaseAST(result)
+		return nil, fmt.Errorf("parsing cancelled: %w", p.ctxErr)
 	}
 
 	// Check if we got any statements
@@ -619,6 +632,7 @@ func (p *Parser) Release() {
 	p.currentToken = token.Token{}
 	p.depth = 0
 	p.ctx = nil
+	p.ctxErr = nil
 }
 
 // parseStatement parses a single SQL statement using O(1) Type-based dispatch.
@@ -770,6 +784,20 @@ func (p *Parser) checkStrictEmptySemicolon() error {
 func (p *Parser) advance() {
 	p.currentPos++
 	verifOnAdvance(p)
+	// Besides the polls at statement and expression starts, look at the
+	// context every 256 tokens, so that long name / column / table lists,
+	// which never reach an expression, notice a cancellation promptly. Once
+	// the context is done the parser only sees end of input; ParseContext
+	// turns that into the context's error.
+	if p.ctx != nil {
+		if p.ctxErr == nil && p.currentPos&255 == 0 {
+			p.ctxErr = p.ctx.Err()
+		}
+		if p.ctxErr != nil {
+			p.currentToken = token.Token{Type: models.TokenTypeEOF}
+			return
+		}
+	}
 	if p.currentPos < len(p.tokens) {
 		p.currentToken = p.tokens[p.currentPos]
 	} else if p.currentPos > len(p.tokens) {
